@@ -120,8 +120,10 @@ def admm_linearized(x, f, g, L, tau, sigma, niter, **kwargs):
     z = L.range.zero()
     u = L.range.zero()
 
-    # Temporary for Lx + u [- z]
-    tmp_ran = L(x)
+    # Temporary for Lx + u [- z]. It is modified in place below, so it must
+    # not be what `L(x)` hands back (may be a view of `x`)
+    tmp_ran = L.range.element()
+    L(x, out=tmp_ran)
     # Temporary for L^*(Lx + u - z)
     tmp_dom = L.domain.element()
 
